@@ -80,4 +80,33 @@ Proof.
   unfold op_matches in Hk, Hm. apply andb_prop in Hk. apply andb_prop in Hm.
   pose proof (prefix_shorter_lt (name k) (name k') rest (proj1 Hk) (proj1 Hm) Hgt) as Hlt. unfold desc in Hd. congruence.
 Qed.
+(* with distinct names the longest matching operator is the one found: an operator that matches where no matching
+   operator has a longer name *)
+Lemma find_exists {A} (f : A -> bool) : forall l x, In x l -> f x = true -> exists y, find f l = Some y.
+Proof.
+  induction l as [|a l IH]; intros x Hin Hx; [destruct Hin|]. cbn [find]. destruct (f a) eqn:E; [exists a; reflexivity|].
+  destruct Hin as [->|Hin]; [congruence|exact (IH x Hin Hx)].
+Qed.
+Lemma prefix_same_length : forall p q s : str, is_prefix p s = true -> is_prefix q s = true -> length p = length q -> p = q.
+Proof.
+  induction p as [|a p IH]; intros q s Hp Hq Hl; destruct q as [|b q]; try discriminate; [reflexivity|].
+  destruct s as [|c s]; [discriminate|]. cbn [is_prefix] in Hp, Hq.
+  apply andb_prop in Hp. apply andb_prop in Hq. destruct Hp as [Hp1 Hp2]. destruct Hq as [Hq1 Hq2].
+  apply N.eqb_eq in Hp1. apply N.eqb_eq in Hq1. subst. f_equal. apply (IH q s Hp2 Hq2). cbn in Hl. congruence.
+Qed.
+Theorem find_ops_unique_longest (rest : str) (k : nat) :
+  (forall i j, i < length tb -> j < length tb -> name i = name j -> i = j) ->
+  k < length tb -> op_matches tb rest k = true ->
+  (forall k', k' < length tb -> op_matches tb rest k' = true -> length (name k') <= length (name k)) ->
+  find_ops tb rest = Some k.
+Proof.
+  intros Hdist Hk Hm Hlong. destruct ops_sorted_spec as [_ Hin].
+  destruct (find_exists (op_matches tb rest) (ops_sorted tb) k (proj2 (Hin k) Hk) Hm) as [k0 Hf].
+  assert (Hk0 : k0 < length tb). { apply Hin. unfold find_ops in Hf. destruct (find_first _ _ _ Hf) as (l1 & l2 & E & _). rewrite E. apply in_or_app. right. left. reflexivity. }
+  destruct (find_ops_longest rest k0 Hf) as [Hm0 Hl0].
+  pose proof (Hl0 k Hk Hm) as H1. pose proof (Hlong k0 Hk0 Hm0) as H2.
+  unfold op_matches in Hm, Hm0. apply andb_prop in Hm. apply andb_prop in Hm0.
+  assert (E : name k0 = name k) by (apply (prefix_same_length _ _ rest (proj1 Hm0) (proj1 Hm)); lia).
+  unfold find_ops. rewrite Hf. f_equal. exact (Hdist k0 k Hk0 Hk E).
+Qed.
 End LongestMatch.
